@@ -153,7 +153,11 @@ class Site:
         return "NONE"
 
     def key(self):
-        return "%s|%s|%s" % (self.body.short, short(self.create.callee.fn) if self.create.callee else "?", self.container[0] + "<" + ",".join(self.container[1]) + ">")
+        op = short(self.create.callee.fn) if self.create.callee else "?"
+        # `for x in &set` (IntoIterator::into_iter on a reference) is `set.iter()`
+        if op.endswith("IntoIterator::into_iter") and self.container[0] in ("HashSet", "HashMap"):
+            op = "std::collections::%s::iter" % self.container[0]
+        return "%s|%s|%s" % (self.body.short, op, self.container[0] + "<" + ",".join(self.container[1]) + ">")
 
 
 def _contains_hash_iter(ty):
